@@ -142,15 +142,24 @@ class Parser:
             orig = token
             if is_flag(token) and not machine.result.unparsed:
                 # Equals-sign-delimited flags, eg --foo=bar or -f=bar
-                glued = (
+                glued_flag = None
+                if (
                     not is_long_flag(token)
                     and len(token) > 2
                     and token[2] != "="
                     and machine.current_state != "unknown"
                     and machine.context is not None
-                    and token[:2] in machine.context.flags
-                    and machine.context.flags[token[:2]].takes_value
-                )
+                ):
+                    if token[:2] in machine.context.flags:
+                        glued_flag = machine.context.flags[token[:2]]
+                    elif (
+                        machine.initial is not None
+                        and machine.context is not machine.initial
+                        and token[:2] in machine.initial.flags
+                    ):
+                        # core flags may be given inside a task context too
+                        glued_flag = machine.initial.flags[token[:2]]
+                glued = glued_flag is not None and glued_flag.takes_value
                 if "=" in token and not glued:
                     token, _, value = token.partition("=")
                     msg = "Splitting x=y expr {!r} into tokens {!r} and {!r}"
